@@ -28,7 +28,12 @@ FILES = [
                    "isize::MAX": ("prelude", "(rs_isize_max {bits})", "isize"),
                    "usize::MAX": ("prelude", "(rs_usize_max {bits})", "usize")},
             abstractions=[("self.bucket_mask", "bucket_mask", "usize"),
-                          ("self.items", "items", "usize")]),
+                          ("self.items", "items", "usize"),
+                          ("self.growth_left", "growth_left", "usize"),
+                          # the same three fields seen from `RawTable<T, A>` (`self.table : RawTableInner`)
+                          ("self.table.bucket_mask", "bucket_mask", "usize"),
+                          ("self.table.items", "items", "usize"),
+                          ("self.table.growth_left", "growth_left", "usize")]),
     FileCfg("serde", "src/external_trait_impls/serde.rs"),
     FileCfg("map", "src/map.rs"),
     FileCfg("bitmask", "src/control/bitmask.rs",
@@ -47,7 +52,10 @@ FILES = [
 IMPL = lambda name, trait=None: ("impl", name, trait)  # noqa: E731
 MOD = lambda name: ("mod", name, None)                # noqa: E731
 
-# kind: struct | newtype | const | fn | let
+# kind: struct | newtype | const | fn            (whole items)
+#       let | ifcond | call | assign | field     (one expression extracted from an effectful fn body)
+#       frag                                     (a statement suffix as a transformer of the book-keeping fields)
+#       writes                                   (the list of field assignments of a fn body)
 SPECS = [
     # ---- control/tag.rs
     dict(kind="newtype", file="tag", name="Tag"),
@@ -80,11 +88,135 @@ SPECS = [
          ret="bool", locals=[("new_items", "usize"), ("full_capacity", "usize")]),
     dict(kind="call", file="raw", scope=IMPL("RawTableInner"), fn="reserve_rehash_inner", name="new_capacity",
          path="usize::max", ret="usize", locals=[("new_items", "usize"), ("full_capacity", "usize")]),
+    # ---- raw/mod.rs: decision expressions and book-keeping assignments (extraction kinds)
+    # accessors (whole bodies; `self.table.<field>` / `self.<field>` are abstraction parameters)
+    dict(kind="fn", file="raw", scope=IMPL("RawTable"), fn="capacity"),
+    dict(kind="fn", file="raw", scope=IMPL("RawTable"), fn="len"),
+    dict(kind="fn", file="raw", scope=IMPL("RawTable"), fn="is_empty"),
+    dict(kind="fn", file="raw", scope=IMPL("RawTable"), fn="buckets"),
+    dict(kind="fn", file="raw", scope=IMPL("RawTableInner"), fn="buckets"),
+    dict(kind="fn", file="raw", scope=IMPL("RawTableInner"), fn="num_ctrl_bytes"),
+    dict(kind="fn", file="raw", scope=IMPL("RawTableInner"), fn="is_empty_singleton"),
+    # reserve / try_reserve / insert
+    dict(kind="ifcond", file="raw", scope=IMPL("RawTable"), fn="reserve", name="cond", ret="bool"),
+    dict(kind="writes", file="raw", scope=IMPL("RawTable"), fn="reserve"),
+    dict(kind="ifcond", file="raw", scope=IMPL("RawTable"), fn="try_reserve", name="cond", ret="bool"),
+    dict(kind="writes", file="raw", scope=IMPL("RawTable"), fn="try_reserve"),
+    dict(kind="ifcond", file="raw", scope=IMPL("RawTable"), fn="insert", name="grow_cond", ret="bool", depth="any",
+         locals=[("old_ctrl", "Tag")]),
+    dict(kind="writes", file="raw", scope=IMPL("RawTable"), fn="insert"),
+    # record_item_insert_at (whole body as a transformer of the book-keeping fields, `set_ctrl_hash` dropped)
+    dict(kind="struct", file="raw", name="RawTableInner", only=["bucket_mask", "items", "growth_left"],
+         **{"as": "RawTableInnerBook"}),
+    dict(kind="frag", file="raw", scope=IMPL("RawTableInner"), fn="record_item_insert_at", name="book",
+         book="RawTableInnerBook", skip=[("self", "set_ctrl_hash")]),
+    dict(kind="assign", file="raw", scope=IMPL("RawTableInner"), fn="record_item_insert_at", place="self.growth_left",
+         name="growth_left", ret="usize"),
+    dict(kind="assign", file="raw", scope=IMPL("RawTableInner"), fn="record_item_insert_at", place="self.items",
+         name="items", ret="usize"),
+    dict(kind="writes", file="raw", scope=IMPL("RawTableInner"), fn="record_item_insert_at"),
+    # erase
+    # (the statements after `let empty_after = ..;`: EMPTY/DELETED decision with the two bit-mask queries as
+    #  parameters `lz`, `tz`, the `growth_left` / `items` updates in their branches; `set_ctrl` dropped)
+    dict(kind="frag", file="raw", scope=IMPL("RawTableInner"), fn="erase", name="tail", book="RawTableInnerBook",
+         after_let="empty_after", skip=[("self", "set_ctrl")], out=["ctrl"],
+         abstractions=[("empty_before.leading_zeros()", "lz", "usize"),
+                       ("empty_after.trailing_zeros()", "tz", "usize")]),
+    dict(kind="assign", file="raw", scope=IMPL("RawTableInner"), fn="erase", place="self.growth_left",
+         name="growth_left", ret="usize"),
+    dict(kind="assign", file="raw", scope=IMPL("RawTableInner"), fn="erase", place="self.items",
+         name="items", ret="usize"),
+    dict(kind="writes", file="raw", scope=IMPL("RawTableInner"), fn="erase"),
+    # rehash_in_place: growth_left recomputation in the unwind guard and after the loop
+    dict(kind="assign", file="raw", scope=IMPL("RawTableInner"), fn="rehash_in_place", place="self_.growth_left",
+         name="guard_growth_left", ret="usize",
+         abstractions=[("self_.bucket_mask", "bucket_mask", "usize"), ("self_.items", "items", "usize")]),
+    dict(kind="assign", file="raw", scope=IMPL("RawTableInner"), fn="rehash_in_place", place="self_.items",
+         name="guard_items", ret="usize",
+         abstractions=[("self_.items", "items", "usize")]),
+    dict(kind="assign", file="raw", scope=IMPL("RawTableInner"), fn="rehash_in_place", place="guard.growth_left",
+         name="growth_left", ret="usize",
+         abstractions=[("guard.bucket_mask", "bucket_mask", "usize"), ("guard.items", "items", "usize")]),
+    dict(kind="writes", file="raw", scope=IMPL("RawTableInner"), fn="rehash_in_place"),
+    # clear_no_drop / clear / RawDrain::drop
+    dict(kind="assign", file="raw", scope=IMPL("RawTableInner"), fn="clear_no_drop", place="self.items",
+         name="items", ret="usize"),
+    dict(kind="assign", file="raw", scope=IMPL("RawTableInner"), fn="clear_no_drop", place="self.growth_left",
+         name="growth_left", ret="usize"),
+    dict(kind="ifcond", file="raw", scope=IMPL("RawTableInner"), fn="clear_no_drop", name="fill_cond", ret="bool"),
+    dict(kind="writes", file="raw", scope=IMPL("RawTableInner"), fn="clear_no_drop"),
+    dict(kind="writes", file="raw", scope=IMPL("RawTable"), fn="clear_no_drop"),
+    dict(kind="ifcond", file="raw", scope=IMPL("RawTable"), fn="clear", name="fast_cond", ret="bool"),
+    dict(kind="writes", file="raw", scope=IMPL("RawTable"), fn="clear"),
+    dict(kind="writes", file="raw", scope=IMPL("RawDrain", "Drop"), fn="drop"),
+    # shrink_to
+    dict(kind="let", file="raw", scope=IMPL("RawTable"), fn="shrink_to", var="min_size", ret="usize"),
+    dict(kind="ifcond", file="raw", scope=IMPL("RawTable"), fn="shrink_to", name="drop_cond", ret="bool", nth=0, of=2),
+    dict(kind="call", file="raw", scope=IMPL("RawTable"), fn="shrink_to", name="min_buckets", path="capacity_to_buckets",
+         ret=("Option", "usize"), abstractions=[("Self::TABLE_LAYOUT", "table_layout", "TableLayout")]),
+    dict(kind="ifcond", file="raw", scope=IMPL("RawTable"), fn="shrink_to", name="shrink_cond", ret="bool", nth=1, of=2,
+         locals=[("min_buckets", "usize")]),
+    dict(kind="ifcond", file="raw", scope=IMPL("RawTable"), fn="shrink_to", name="empty_cond", ret="bool", depth="any",
+         nth=2, of=4),
+    dict(kind="writes", file="raw", scope=IMPL("RawTable"), fn="shrink_to"),
+    # clone_from / clone_from_impl
+    dict(kind="ifcond", file="raw", scope=IMPL("RawTable", "Clone"), fn="clone_from", name="singleton_cond", ret="bool",
+         depth="any", nth=0, of=3,
+         abstractions=[("source.table.is_empty_singleton()", "source_is_empty_singleton", "bool")]),
+    dict(kind="ifcond", file="raw", scope=IMPL("RawTable", "Clone"), fn="clone_from", name="realloc_cond", ret="bool",
+         depth="any", nth=1, of=3,
+         abstractions=[("self_.buckets()", "self_buckets", "usize"), ("source.buckets()", "source_buckets", "usize")]),
+    dict(kind="writes", file="raw", scope=IMPL("RawTable", "Clone"), fn="clone_from"),
+    dict(kind="assign", file="raw", scope=IMPL("RawTable"), fn="clone_from_impl", place="self.table.items",
+         name="items", ret="usize", abstractions=[("source.table.items", "source_items", "usize")]),
+    dict(kind="assign", file="raw", scope=IMPL("RawTable"), fn="clone_from_impl", place="self.table.growth_left",
+         name="growth_left", ret="usize", abstractions=[("source.table.growth_left", "source_growth_left", "usize")]),
+    dict(kind="writes", file="raw", scope=IMPL("RawTable"), fn="clone_from_impl"),
+    # replace_bucket_with
+    dict(kind="let", file="raw", scope=IMPL("RawTable"), fn="replace_bucket_with", var="old_growth_left", ret="usize"),
+    dict(kind="assign", file="raw", scope=IMPL("RawTable"), fn="replace_bucket_with", place="self.table.growth_left",
+         name="growth_left", ret="usize", locals=[("old_growth_left", "usize")]),
+    dict(kind="assign", file="raw", scope=IMPL("RawTable"), fn="replace_bucket_with", place="self.table.items",
+         name="items", ret="usize"),
+    dict(kind="writes", file="raw", scope=IMPL("RawTable"), fn="replace_bucket_with"),
+    # fallible_with_capacity / resize_inner
+    dict(kind="ifcond", file="raw", scope=IMPL("RawTableInner"), fn="fallible_with_capacity", name="new_cond", ret="bool"),
+    dict(kind="call", file="raw", scope=IMPL("RawTableInner"), fn="fallible_with_capacity", name="buckets",
+         path="capacity_to_buckets", ret=("Option", "usize")),
+    dict(kind="assign", file="raw", scope=IMPL("RawTableInner"), fn="resize_inner", place="new_table.growth_left",
+         name="growth_left", ret="usize", abstractions=[("new_table.growth_left", "new_growth_left", "usize")]),
+    dict(kind="assign", file="raw", scope=IMPL("RawTableInner"), fn="resize_inner", place="new_table.items",
+         name="items", ret="usize"),
+    dict(kind="writes", file="raw", scope=IMPL("RawTableInner"), fn="resize_inner"),
+    # new / new_uninitialized: initial book-keeping of the `Self { .. }` literal
+    dict(kind="field", file="raw", scope=IMPL("RawTableInner"), fn="new", lit="Self", field="bucket_mask",
+         name="bucket_mask", ret="usize"),
+    dict(kind="field", file="raw", scope=IMPL("RawTableInner"), fn="new", lit="Self", field="items",
+         name="items", ret="usize"),
+    dict(kind="field", file="raw", scope=IMPL("RawTableInner"), fn="new", lit="Self", field="growth_left",
+         name="growth_left", ret="usize"),
+    dict(kind="field", file="raw", scope=IMPL("RawTableInner"), fn="new_uninitialized", lit="Self", field="bucket_mask",
+         name="bucket_mask", ret="usize"),
+    dict(kind="field", file="raw", scope=IMPL("RawTableInner"), fn="new_uninitialized", lit="Self", field="items",
+         name="items", ret="usize"),
+    dict(kind="field", file="raw", scope=IMPL("RawTableInner"), fn="new_uninitialized", lit="Self", field="growth_left",
+         name="growth_left", ret="usize"),
+    # probing: insert-slot fallback condition and the bucket index expressions
+    dict(kind="ifcond", file="raw", scope=IMPL("RawTableInner"), fn="fix_insert_slot", name="cond", ret="bool",
+         abstractions=[("self.is_bucket_full(index)", "is_bucket_full", "bool")]),
+    dict(kind="call", file="raw", scope=IMPL("RawTableInner"), fn="find_insert_slot_in_group", name="index", path="Some",
+         ret=("Option", "usize"), abstractions=[("bit.unwrap()", "bit", "usize")]),
+    dict(kind="let", file="raw", scope=IMPL("RawTableInner"), fn="find_inner", var="index", ret="usize", depth="any",
+         locals=[("probe_seq", "ProbeSeq"), ("bit", "usize")]),
+    dict(kind="let", file="raw", scope=IMPL("RawTableInner"), fn="find_or_find_insert_slot_inner", var="index", ret="usize",
+         depth="any", locals=[("probe_seq", "ProbeSeq"), ("bit", "usize")]),
     # ---- serde.rs / map.rs
     dict(kind="fn", file="serde", scope=MOD("size_hint"), fn="cautious"),
     dict(kind="let", file="map", scope=IMPL("HashMap", "Extend<(K,V)>"), fn="extend", var="reserve", ret="usize",
          abstractions=[("self.is_empty()", "is_empty", "bool"),
                        ("iter.size_hint().0", "hint", "usize")]),
+    dict(kind="let", file="map", scope=IMPL("HashMap", "Extend<(K,V)>"), fn="extend_reserve", var="reserve", ret="usize",
+         abstractions=[("self.is_empty()", "is_empty", "bool")]),
     # ---- control/bitmask.rs   (generic in the word width `w`)
     dict(kind="newtype", file="bitmask", name="BitMask"),
     dict(kind="newtype", file="bitmask", name="BitMaskIter"),
@@ -172,10 +304,21 @@ class Generator:
                     "struct " + sp["name"], f)
         tr = FnTranslator(self.world, f, "struct " + sp["name"])
         fields = []
+        only = sp.get("only")         # book-keeping view: only these fields (all must exist), emitted as `as`
+        if only is not None:
+            have = [fname for (fname, _) in st.fields]
+            for x in only:
+                if x not in have:
+                    raise TranslateError("struct %s: no field `%s` in %s" % (sp["name"], x, f.path))
         for (fname, tytoks) in st.fields:
+            if only is not None and fname not in only:
+                continue
             t = tr.norm_type(parse_type_toks(tytoks, "struct %s field %s" % (sp["name"], fname)))
             fields.append((fname, t))
-        self.world.structs[sp["name"]] = fields
+        lean_struct = sp.get("as", sp["name"])
+        self.world.structs[lean_struct] = fields
+        if only is not None:
+            sp = dict(sp, name=lean_struct)
         lines = ["structure %s where" % sp["name"]]
         for (fname, t) in fields:
             lines.append("  %s : %s" % (fname, tr.lean_type(t)))
@@ -272,6 +415,7 @@ class Generator:
         ctx = [k for k in CTX_ORDER if k in tr.ctx_used]
         for k in ctx:
             binders.append("(%s : %s)" % CTX_LEAN[k])
+        self.sort_abs(tr)
         for (pat, name, rty) in tr.abs_used:
             binders.append("(%s : %s)" % (name, tr.lean_type(rty)))
         if has_self:
@@ -294,6 +438,7 @@ class Generator:
         f, where, fn = self.find_fn(sp)
         where = where + " [let %s]" % sp["var"]
         toks = fn.body
+        anyd = sp.get("depth") == "any"      # default: only statements at brace depth 0 of the body
         depth, hits, i = 0, [], 0
         while i < len(toks):
             t = toks[i]
@@ -301,7 +446,7 @@ class Generator:
                 depth += 1
             elif t.kind == "punct" and t.text in ")]}":
                 depth -= 1
-            elif depth == 0 and t.kind == "id" and t.text == "let":
+            elif (depth == 0 or anyd) and t.kind == "id" and t.text == "let":
                 j = i + 1
                 if toks[j].kind == "id" and toks[j].text == "mut":
                     j += 1
@@ -326,12 +471,16 @@ class Generator:
                     i = k
             i += 1
         expr_toks = unique(hits, where, f)
-        self._emit_extracted(sp, f, where, fn, expr_toks, sp["fn"] + "_" + sp["var"])
+        self._emit_extracted(sp, f, where, fn, expr_toks, sp["fn"] + "_" + sp.get("name", sp["var"]))
 
     def emit_ifcond(self, sp):
         """Extract the condition of the unique top-level `if` statement of a function body."""
         f, where, fn = self.find_fn(sp)
-        where = where + " [top-level if condition]"
+        anyd = sp.get("depth") == "any"
+        nth, of = sp.get("nth"), sp.get("of")
+        where = where + (" [if condition #%d of %d, %s]" % (nth, of, "any depth" if anyd else "depth 0")
+                         if nth is not None else
+                         " [%s if condition]" % ("the unique" if anyd else "top-level"))
         toks = fn.body
         depth, hits, i = 0, [], 0
         while i < len(toks):
@@ -340,7 +489,9 @@ class Generator:
                 depth += 1
             elif t.kind == "punct" and t.text in ")]}":
                 depth -= 1
-            elif depth == 0 and t.kind == "id" and t.text == "if" and not (i > 0 and toks[i - 1].text == "else"):
+            elif (depth == 0 or anyd) and t.kind == "id" and t.text == "if" \
+                    and not (i > 0 and toks[i - 1].text == "else") \
+                    and not (toks[i + 1].kind == "id" and toks[i + 1].text == "let"):
                 k, d = i + 1, 0
                 while True:
                     if k >= len(toks):
@@ -354,9 +505,82 @@ class Generator:
                         d -= 1
                     k += 1
                 hits.append(toks[i + 1:k])
-                i = k - 1
+                if not anyd:
+                    i = k - 1
             i += 1
-        self._emit_extracted(sp, f, where, fn, unique(hits, where, f), sp["fn"] + "_" + sp["name"])
+        if nth is not None:
+            # the n-th (0-based, source order) of exactly `of` plain `if`s (`else if` and `if let` are
+            # not counted): adding or removing an `if` is a translation error, not a silent re-numbering
+            if len(hits) != of:
+                raise TranslateError("%s: expected %d `if` statements in %s, found %d" % (where, of, f.path, len(hits)))
+            hit = hits[nth]
+        else:
+            hit = unique(hits, where, f)
+        self._emit_extracted(sp, f, where, fn, hit, sp["fn"] + "_" + sp["name"])
+
+    # -- assignments ------------------------------------------------------------------------
+    @staticmethod
+    def _assign_sites(toks):
+        """All assignment statements `<place> <op>= <expr>` whose place is a field chain (`a.b.c`,
+        at least one `.`), at any depth: [(place token list, op text, rhs token list)].
+        `let` bindings, named macro arguments and comparison operators are not assignments."""
+        from rs_parse import ASSIGN_OPS
+        out = []
+        for i, t in enumerate(toks):
+            if t.kind != "punct" or t.text not in ASSIGN_OPS:
+                continue
+            j = i
+            while j > 0 and (toks[j - 1].kind in ("id", "int", "float") or
+                             (toks[j - 1].kind == "punct" and toks[j - 1].text == ".")):
+                j -= 1
+            place = toks[j:i]
+            if not place or place[0].kind != "id" or not any(x.text == "." for x in place):
+                continue
+            if place[0].text in ("let", "mut", "const", "static", "if", "while", "return", "else", "in", "match"):
+                continue
+            k, d = i + 1, 0
+            while k < len(toks):
+                tt = toks[k]
+                if tt.kind == "punct" and tt.text in "([{":
+                    d += 1
+                elif tt.kind == "punct" and tt.text in ")]}":
+                    if d == 0:
+                        break
+                    d -= 1
+                elif tt.kind == "punct" and tt.text == ";" and d == 0:
+                    break
+                k += 1
+            out.append((place, t.text, toks[i + 1:k]))
+        return out
+
+    def emit_assign(self, sp):
+        """Extract the unique assignment statement `<place> = e` / `<place> op= e` (any depth) to the
+        field chain `place` and emit the NEW value of the place: `e`, resp. `<place> op e` (the old
+        value is the abstraction parameter configured for `place`)."""
+        f, where, fn = self.find_fn(sp)
+        where = where + " [assignment to %s]" % sp["place"]
+        want = [x.text for x in tokenize(sp["place"])[:-1]]
+        hits = [h for h in self._assign_sites(fn.body) if [x.text for x in h[0]] == want]
+        place, op, rhs = unique(hits, where, f)
+        if not rhs:
+            raise TranslateError("%s: empty right-hand side" % where)
+        if op == "=":
+            expr_toks = list(rhs)
+        else:
+            lp = Tok("punct", "(", rhs[0].line, 0)
+            rp = Tok("punct", ")", rhs[-1].line, 0)
+            expr_toks = list(place) + [Tok("punct", op[:-1], rhs[0].line, 0), lp] + list(rhs) + [rp]
+        self._emit_extracted(sp, f, where, fn, expr_toks, sp["fn"] + "_" + sp["name"])
+
+    def emit_writes(self, sp):
+        """The list of all field assignments (`place op`) in a function body, in source order, as a
+        Lean `List String`: a frame statement (which book-keeping fields the function writes itself)."""
+        f, where, fn = self.find_fn(sp)
+        sites = self._assign_sites(fn.body)
+        items = ["%s %s" % (join(pl), op) for (pl, op, _) in sites]
+        lname = self.lean_name(f, sp["scope"], sp["fn"] + "_writes")
+        self.out.append("def %s : List String :=\n  [%s]" % (lean_decl_name(lname), ", ".join('"%s"' % x for x in items)))
+        self.summary.append("def " + lname)
 
     def emit_call(self, sp):
         """Extract the unique call `<path>(...)` (e.g. `usize::max(..)`) occurring in a function body."""
@@ -382,6 +606,13 @@ class Generator:
                         raise TranslateError("%s: unterminated call" % where)
                 hits.append(toks[i:k + 1])
         self._emit_extracted(sp, f, where, fn, unique(hits, where, f), sp["fn"] + "_" + sp["name"])
+
+    @staticmethod
+    def sort_abs(tr):
+        """Abstraction parameters in configuration order (spec-level first, then file-level), so that
+        the signature does not depend on the order in which the source mentions them."""
+        order = [a[1] for a in tr.abstractions]
+        tr.abs_used.sort(key=lambda a: order.index(a[1]))
 
     def _emit_extracted(self, sp, f, where, fn, expr_toks, suffix):
         e = parse_expr_toks(expr_toks, where)
@@ -420,14 +651,112 @@ class Generator:
         ctx = [k for k in CTX_ORDER if k in tr.ctx_used]
         for k in ctx:
             binders.append("(%s : %s)" % CTX_LEAN[k])
+        self.sort_abs(tr)
         for (pat, name, rty) in tr.abs_used:
             binders.append("(%s : %s)" % (name, tr.lean_type(rty)))
         for (rn, ln, t) in plist:
             if rn in tr.params_used:
                 binders.append("(%s : %s)" % (ln, tr.lean_type(t)))
         lname = self.lean_name(f, sp["scope"], suffix)
-        self.out.append("def %s %s : %s :=\n  %s" % (lean_decl_name(lname), " ".join(binders), tr.lean_type(ret_t), body))
+        self.out.append("def %s%s : %s :=\n  %s" % (lean_decl_name(lname), "".join(" " + b for b in binders),
+                                                  tr.lean_type(ret_t), body))
         self.summary.append("def " + lname)
+
+    def emit_frag(self, sp):
+        """A suffix (or the whole) of the statement list of a `&mut self` method as a state transformer over
+        the book-keeping view `sp["book"]` of `self` (a generated structure with a subset of the fields):
+        the statements after the unique depth-0 `let <after_let> = ..;`, with the opaque statement-level
+        calls `skip` (each must occur exactly once) dropped; result `(out.., self_)`."""
+        f, where, fn = self.find_fn(sp)
+        where = where + " [fragment %s]" % sp["name"]
+        book = sp["book"]
+        if book not in self.world.structs:
+            raise TranslateError("%s: book-keeping structure %s has not been generated" % (where, book))
+        self_kind, params = parse_params(fn.params, where)
+        if self_kind != "&mut self":
+            raise TranslateError("%s: receiver is `%s`, expected `&mut self`" % (where, self_kind))
+        tr = FnTranslator(self.world, f, where, self_type=book, self_kind=self_kind,
+                          abstractions=sp.get("abstractions", ()))
+        bookfields = [x for x, _ in self.world.structs[book]]
+        tr.abstractions = [a for a in tr.abstractions
+                           if not (a[0][0] == "field" and a[0][1] == ("path", ("self",), None) and a[0][2] in bookfields)]
+        plist = []
+        for (pat, ty) in params:
+            if pat[0] != "p_id":
+                continue
+            t = tr.norm_type(ty)
+            plist.append((pat[1], tr.bind(pat[1], t, "param"), t))
+        for (ln_, lt_) in sp.get("locals", ()):
+            plist = [p for p in plist if p[0] != ln_]
+            plist.append((ln_, tr.bind(ln_, lt_, "param"), lt_))
+        body = parse_body(fn.body, where)
+        stmts, tail = list(body[1]), body[2]
+        if tail is not None:
+            raise TranslateError("%s: the function body has a tail expression" % where)
+        after = sp.get("after_let")
+        if after is not None:
+            idx = [i for i, st in enumerate(stmts) if st[0] == "let" and st[1] == ("p_id", after)]
+            if len(idx) != 1:
+                raise TranslateError("%s: expected exactly one top-level `let %s = ..;`, found %d" % (where, after, len(idx)))
+            stmts = stmts[idx[0] + 1:]
+        for (recv, meth) in sp.get("skip", ()):
+            hit = [i for i, st in enumerate(stmts) if st[0] == "semi" and st[1][0] == "mcall"
+                   and st[1][1] == ("path", (recv,), None) and st[1][2] == meth]
+            if len(hit) != 1:
+                raise TranslateError("%s: expected exactly one statement `%s.%s(..);`, found %d" % (where, recv, meth, len(hit)))
+            del stmts[hit[0]]
+        outs = [("path", (o,), None) for o in sp.get("out", ())]
+        selfp = ("path", ("self",), None)
+        syn_tail = ("tuple", tuple(outs) + (selfp,)) if outs else selfp
+        tr.ret_unit = False
+        tr.ret_type = None
+        tr.ret_kind_option = False
+        lines = tr.tr_stmts(stmts, syn_tail, 1)
+        out_types = []
+        for o in sp.get("out", ()):
+            v = tr.lookup(o)
+            if v is None or v[1] is None:
+                raise TranslateError("%s: cannot determine the type of the output local `%s`" % (where, o))
+            out_types.append(tr.lean_type(v[1]))
+        binders = []
+        for k in [k for k in CTX_ORDER if k in tr.ctx_used]:
+            binders.append("(%s : %s)" % CTX_LEAN[k])
+        self.sort_abs(tr)
+        for (pat, name, rty) in tr.abs_used:
+            binders.append("(%s : %s)" % (name, tr.lean_type(rty)))
+        binders.append("(self_ : %s)" % book)
+        for (rn, ln, t) in plist:
+            if rn in tr.params_used:
+                binders.append("(%s : %s)" % (ln, tr.lean_type(t)))
+        lret = "(" + " × ".join(out_types + [book]) + ")" if out_types else book
+        lname = self.lean_name(f, sp["scope"], sp["fn"] + "_" + sp["name"])
+        self.out.append("def %s %s : %s :=\n%s" % (lean_decl_name(lname), " ".join(binders), lret, "\n".join(lines)))
+        self.summary.append("def " + lname)
+
+    def emit_field(self, sp):
+        """Extract the initializer of field `field` in the unique struct literal `<lit> { .. }` (e.g.
+        `Self { .. }`) of a function body."""
+        f, where, fn = self.find_fn(sp)
+        where = where + " [field %s of the `%s { .. }` literal]" % (sp["field"], sp["lit"])
+        from rs_lex import skip_balanced, split_top
+        pat = [x.text for x in tokenize(sp["lit"])[:-1]]
+        toks = fn.body
+        hits = []
+        for i in range(len(toks) - len(pat)):
+            if [x.text for x in toks[i:i + len(pat)]] == pat and toks[i + len(pat)].text == "{" \
+                    and not (i > 0 and toks[i - 1].text in ("::", ".")):
+                j = i + len(pat)
+                k = skip_balanced(toks + [Tok("eof", "<eof>", toks[-1].line, 0)], j)
+                hits.append(toks[j + 1:k - 1])
+        inner = unique(hits, where, f)
+        inits = []
+        for part in split_top(inner):
+            if len(part) >= 1 and part[0].kind == "id" and part[0].text == sp["field"]:
+                if len(part) == 1:
+                    inits.append(part)            # shorthand `field`
+                elif part[1].text == ":":
+                    inits.append(part[2:])
+        self._emit_extracted(sp, f, where, fn, unique(inits, where, f), sp["fn"] + "_" + sp["name"])
 
     def run(self):
         for sp in SPECS:
